@@ -169,7 +169,7 @@ CHECKS = {
              "and energies above rest energy, det = 1 and volume invariance for every symplectic map, cavity transverse "
              "determinant = E_in/E_out, seventh row/component; the model is tied to /repo on every run by a bit-exact "
              "double-vs-double correspondence of all 49 map entries per element class; a falsifier checks "
-             "M^T S6 M = S6, the seventh row and the cavity area ratio on the real code. Falsifier additionally: autograd Jacobians of the Bmad-X maps at random paraxial points (bends up to 2.6 rad) against J^T S J = S, every entry of vectorised maps, cavities re-tuned between two passes of the same beam object. Added: the non-linear Bmad-X drift kernel track_a_drift is symplectic at every transportable point: closed form of the kernel, every one of the 36 Jacobian entries by HasDerivAt (bmadx_drift_jacobian), symmetric shift gradient, J^T S J = S (bmadx_drift_symplectic); the closed-form Jacobian is executable (BmadxJac.lean) and compared with torch.autograd`s Jacobian of the real kernel (driver op bdjac).",
+             "M^T S6 M = S6, the seventh row and the cavity area ratio on the real code. Falsifier additionally: autograd Jacobians of the Bmad-X maps at random paraxial points (bends up to 2.6 rad) against J^T S J = S, every entry of vectorised maps, cavities re-tuned between two passes of the same beam object. Added: the non-linear Bmad-X drift kernel track_a_drift is symplectic at every transportable point: closed form of the kernel, every one of the 36 Jacobian entries by HasDerivAt (bmadx_drift_jacobian), symmetric shift gradient, J^T S J = S (bmadx_drift_symplectic); the closed-form Jacobian is executable (BmadxJac.lean) and compared with torch.autograd`s Jacobian of the real kernel (driver op bdjac); the Jacobian of cheetah_to_bmad_z_pz entry by entry with determinant -1 (zpz_jacobian_entries, zpz_jacobian_det) and hence S6-symplecticity of the drift in Cheetah coordinates (bmadx_drift_symplectic_cheetah; chain rule cited).",
         design="§5 C03",
         note="Trusted: Lean kernel, Mathlib, axioms propext/Classical.choice/Quot.sound; instance Scalar ℝ; real-number "
              "semantics (round-off not proved, covered by the correspondence at 256 eps); harness generators. "
